@@ -244,12 +244,20 @@ class B2BMonitor:
         self.k = 0
         self.off = not hold
         self.stall = 0
+        self.prev = None      # beat offered and not accepted in the previous cycle
 
     def observe(self, letter, outs):
         if self.off:
             return None
         go, addr, ln, size, bt, rid, ready = letter
         v, bready, bv, baddr, bfirst, blast, bid = outs
+        # a beat that was offered and stalled must be offered again unchanged (also during stalls, not only at
+        # the handshake): the beat stream carries the addresses of the burst, a beat that changes while it waits
+        # is a different beat
+        prev, self.prev = self.prev, ((baddr, bfirst, blast, bid) if (bv and not ready) else None)
+        if prev is not None and (not bv or prev != (baddr, bfirst, blast, bid)):
+            return "stalled beat (addr=0x%x first=%d last=%d id=%d) changed to (valid=%d addr=0x%x first=%d last=%d id=%d)" % (
+                prev + (bv, baddr, bfirst, blast, bid))
         if self.cur is None:
             if not v:
                 if bv:
@@ -395,25 +403,48 @@ def log2i(x):
     return x.bit_length() - 1
 
 
+def build_converter(kind, dw_from, dw_to, aw=32, aw_to=None, via="direct"):
+    """Real converter between two AXIInterfaces.  `via`: 'direct' instantiates AXIUpConverter/AXIDownConverter,
+    'AXIConverter' goes through the selection glue users call (it picks the class from the two data widths)."""
+    from litex.soc.interconnect.axi.axi_full import AXIInterface, AXIUpConverter, AXIDownConverter, AXIConverter
+    axi_from = AXIInterface(data_width=dw_from, address_width=aw, id_width=2)
+    axi_to = AXIInterface(data_width=dw_to, address_width=aw_to or aw, id_width=2)
+    if via == "AXIConverter":
+        module = AXIConverter(axi_from, axi_to)
+    else:
+        assert kind in ("up", "down")
+        module = (AXIUpConverter if kind == "up" else AXIDownConverter)(axi_from, axi_to)
+    return axi_from, axi_to, module
+
+
+def conv_name(kind, dw_from, dw_to, aw_to=None, via="direct"):
+    base = {"up": "AXIUpConverter", "down": "AXIDownConverter", "same": "AXIConverter-identity"}[kind]
+    return "%s(%d->%d)%s%s" % (base, dw_from, dw_to, "/via-AXIConverter" if via != "direct" else "",
+                               "/aw_to=%d" % aw_to if aw_to else "")
+
+
+SIDEBAND = ("id", "lock", "prot", "cache", "qos", "region")
+
+
 class ConvArith:
-    def __init__(self, kind, dw_from, dw_to, aw=32):
-        from litex.soc.interconnect.axi.axi_full import AXIInterface, AXIUpConverter, AXIDownConverter
-        self.kind = kind
-        self.dw_from, self.dw_to, self.aw = dw_from, dw_to, aw
-        self.name = "AXI%sConverter(%d->%d)/ax" % ("Up" if kind == "up" else "Down", dw_from, dw_to)
-        self.axi_from = AXIInterface(data_width=dw_from, address_width=aw, id_width=2)
-        self.axi_to = AXIInterface(data_width=dw_to, address_width=aw, id_width=2)
-        cls = AXIUpConverter if kind == "up" else AXIDownConverter
-        self.module = cls(self.axi_from, self.axi_to)
+    """Address channels (and the other pass-through ports) of a real converter, combinationally."""
+
+    def __init__(self, kind, dw_from, dw_to, aw=32, aw_to=None, via="direct"):
+        self.kind = kind                    # 'up' | 'down' | 'same'
+        self.dw_from, self.dw_to, self.aw, self.aw_to = dw_from, dw_to, aw, aw_to or aw
+        self.name = conv_name(kind, dw_from, dw_to, aw_to, via) + "/ax"
+        self.axi_from, self.axi_to, self.module = build_converter(kind, dw_from, dw_to, aw, aw_to, via)
         self.n = Netlist(self.module)
         self.sf = log2i(dw_from // 8)
         self.st = log2i(dw_to // 8)
+        # widths of the side-band fields as declared by ax_description(version="axi4") and our id_width=2
+        self.sb_width = {"id": 2, "lock": 1, "prot": 3, "cache": 4, "qos": 4, "region": 4}
 
     def lean_line(self, req):
         a, ln, size, bt = req
-        if self.kind == "up":
-            return "up %d %d %d %d %d" % (self.st - self.sf, a, ln, size, bt)
-        return "down %d %d %d %d %d %d" % (self.sf, self.st, a, ln, size, bt)
+        if self.kind == "down":
+            return "down %d %d %d %d %d %d" % (self.sf, self.st, a, ln, size, bt)
+        return "up %d %d %d %d %d" % (self.st - self.sf, a, ln, size, bt)        # 'same' = ratio 2^0
 
     def impl(self, req, channel="aw"):
         n = self.n
@@ -428,34 +459,101 @@ class ConvArith:
         n.settle()
         return (n.getu(t.addr), n.getu(t.len), n.getu(t.size), n.getu(t.burst))
 
+    def passthrough(self, rng):
+        """Ports the converters only connect through: AW/AR valid/ready and side-band fields, the B channel, and
+        (combinationally, up-converter / identity only) R resp/id.  Returns a message or None."""
+        n = self.n
+        f, t = self.axi_from, self.axi_to
+        for ch in ("aw", "ar"):
+            cf, ct = getattr(f, ch), getattr(t, ch)
+            vals = {k: rng.getrandbits(w) for k, w in self.sb_width.items()}
+            v, r = rng.getrandbits(1), rng.getrandbits(1)
+            n.set(cf.valid, v)
+            n.set(ct.ready, r)
+            for k, x in vals.items():
+                n.set(getattr(cf, k), x)
+            n.settle()
+            got = {k: n.getu(getattr(ct, k)) for k in vals}
+            if n.getu(ct.valid) != v or n.getu(cf.ready) != r:
+                return "%s.%s: valid/ready not connected through (valid %d->%d, ready %d->%d)" % (
+                    self.name, ch, v, n.getu(ct.valid), r, n.getu(cf.ready))
+            if v and got != vals:
+                return "%s.%s: side-band fields %r forwarded as %r" % (self.name, ch, vals, got)
+        v, r, resp, bid = rng.getrandbits(1), rng.getrandbits(1), rng.getrandbits(2), rng.getrandbits(2)
+        n.set(t.b.valid, v); n.set(t.b.resp, resp); n.set(t.b.id, bid); n.set(f.b.ready, r)
+        n.settle()
+        if n.getu(f.b.valid) != v or n.getu(t.b.ready) != r or (v and (n.getu(f.b.resp), n.getu(f.b.id)) != (resp, bid)):
+            return "%s.b: response (valid %d resp %d id %d, ready %d) arrives as (valid %d resp %d id %d, ready %d)" % (
+                self.name, v, resp, bid, r, n.getu(f.b.valid), n.getu(f.b.resp), n.getu(f.b.id), n.getu(t.b.ready))
+        if self.kind in ("up", "same"):
+            resp, rid = rng.getrandbits(2), rng.getrandbits(2)
+            n.set(t.r.valid, 1); n.set(t.r.resp, resp); n.set(t.r.id, rid)
+            n.settle()
+            if n.getu(f.r.valid) and (n.getu(f.r.resp), n.getu(f.r.id)) != (resp, rid):
+                return "%s.r: resp/id (%d,%d) arrive as (%d,%d)" % (self.name, resp, rid, n.getu(f.r.resp), n.getu(f.r.id))
+            n.set(t.r.valid, 0)
+            n.settle()
+        return None
+
     def supported(self, req):
-        """Region in which the converter is claimed (and proved, `*_arith_partial`) to preserve the bytes."""
+        """Sub-domain in which the unchanged converter transfers the right bytes (None outside):
+        'incr'   INCR, full-width (up: start aligned to the wide word, len+1 multiple of the ratio;
+                 down: (len+1)*ratio <= 256)                        -- proved: *_arith_partial
+        'wrap'   legal WRAP, full-width, forwarded burst again a legal WRAP of 2..16 transfers
+                 (up: start aligned to the wide word, (len+1)/ratio in 2..16; down: (len+1)*ratio <= 16)
+        'single' down only: a single transfer (len = 0, INCR or FIXED) at least as wide as the narrow bus, any start
+                 inside one wide word: forwarded as the `ratio` full-width narrow transfers of that word (strobes
+                 select the bytes).  (Single transfers NARROWER than the narrow bus keep their size but still get
+                 `ratio` beats: wrong on the unchanged tree, same defect as the narrow-burst known finding.)
+        'same'   identity converter: everything legal."""
         a, ln, size, bt = req
-        if bt != INCR or not legal(self.aw, a, ln, size, INCR):
-            return False
+        if a >= (1 << self.aw):
+            return None
+        if self.kind == "same":
+            return "same" if bt in (FIXED, INCR, WRAP) and legal(self.aw, a, ln, size, bt) and size <= self.sf else None
         if self.kind == "up":
             ratio = 1 << (self.st - self.sf)
-            return size == self.sf and a % (1 << self.st) == 0 and (ln + 1) % ratio == 0
+            if size != self.sf or a % (1 << self.st) or (ln + 1) % ratio:
+                return None
+            if bt == INCR and legal(self.aw, a, ln, size, INCR):
+                return "incr"
+            if bt == WRAP and legal(self.aw, a, ln, size, WRAP) and (ln + 1) // ratio >= 2:
+                return "wrap"
+            return None
         ratio = 1 << (self.sf - self.st)
-        return size == self.sf and (ln + 1) * ratio <= 256
+        if bt == INCR and size == self.sf and legal(self.aw, a, ln, size, INCR) and (ln + 1) * ratio <= 256:
+            return "incr"
+        if bt == WRAP and size == self.sf and legal(self.aw, a, ln, size, WRAP) and (ln + 1) * ratio <= 16:
+            return "wrap"
+        if ln == 0 and bt in (INCR, FIXED) and self.st <= size <= self.sf:
+            return "single"
+        return None
 
     def oracle(self, req, got):
-        """Byte-set equality across the converter (A3.4.1 on both sides); None if fine."""
+        """Byte-sequence equality across the converter (A3.4.1 on both sides); None if fine."""
         a, ln, size, bt = req
-        if not self.supported(req):
+        dom = self.supported(req)
+        if dom is None:
             return None
         a2, ln2, size2, bt2 = got
-        if self.kind == "up":
-            want = burst_bytes(a, ln, size, bt)
-        else:
+        if self.kind == "down" and dom in ("incr", "single"):
             al = (a >> self.sf) << self.sf
-            want = burst_bytes(al, ln, size, bt)       # the whole containers of the wide burst
-        have = burst_bytes(a2, ln2, size2, bt2) if bt2 in (FIXED, INCR, WRAP) else None
-        if have != want:
+            want = burst_bytes(al, ln, self.sf, INCR)      # the whole wide containers, in order
+        else:
+            want = burst_bytes(a, ln, size, bt)
+        have = burst_bytes(a2, ln2, size2, bt2) if (bt2 in (FIXED, INCR, WRAP) and ((ln2 + 1) << size2) <= 8192) else None
+        ok = have == want
+        if ok and dom == "wrap" and not legal(self.aw_to, a2, ln2, size2, bt2):
+            ok = False
+        if ok and size2 > self.st:
+            ok = False
+        if not ok:
             return "%s: burst (addr=0x%x len=%d size=%d burst=%d) forwarded as (addr=0x%x len=%d size=%d burst=%d): " \
-                   "%d bytes from 0x%x instead of %d bytes from 0x%x" % (
-                       self.name, a, ln, size, bt, a2, ln2, size2, bt2, len(have or []), (have or [0])[0],
-                       len(want), want[0])
+                   "%s bytes from %s instead of %d bytes from 0x%x [%s]" % (
+                       self.name, a, ln, size, bt, a2, ln2, size2, bt2, len(have) if have is not None else "?",
+                       ("0x%x" % have[0]) if have else "?", len(want), want[0],
+                       "first difference at byte %d" % next((k for k in range(min(len(have or []), len(want)))
+                                                           if have[k] != want[k]), min(len(have or []), len(want))))
         return None
 
 
@@ -474,12 +572,18 @@ def conv_run(ca, lean, cov, seed, tier):
         ch = "aw" if k % 2 == 0 else "ar"
         got = ca.impl(r, ch)
         want = tuple(int(w) for w in line.split())
-        if ca.supported(r):
+        dom = ca.supported(r)
+        if dom:
             nsup += 1
+            cov.count("conv-arith byte oracle, domain " + dom)
             m = ca.oracle(r, got)
             if m and ofail is None:
                 ofail = {"instance": ca.name, "kind": "monitor:" + m, "channel": ch, "request": list(r),
                          "forwarded": list(got), "monitor": m}
+        if k % 16 == 0 and ofail is None:
+            m = ca.passthrough(rng)
+            if m:
+                ofail = {"instance": ca.name, "kind": "monitor:" + m, "passthrough": True, "monitor": m}
         if got != want and len(dis) < 3:
             dis.append({"instance": ca.name, "kind": "conv-arith", "channel": ch, "request": list(r),
                         "impl": list(got), "model": list(want)})
@@ -492,27 +596,59 @@ def conv_run(ca, lean, cov, seed, tier):
 
 
 def conv_supported_requests(rng, ca, n):
-    """Requests inside the region where the converter is claimed to preserve the bytes."""
+    """Requests inside the sub-domains where the converter is claimed to transfer the right bytes
+    (see ConvArith.supported): INCR, WRAP and (down) single transfers of every size."""
     aw = ca.aw
-    for _ in range(n):
-        if ca.kind == "up":
+    page = lambda: rng.randrange(1 << (aw - 12)) << 12
+    for k in range(n):
+        mode = k % 4
+        if ca.kind == "same":
+            bt = rng.choice((FIXED, INCR, WRAP))
+            size = rng.randint(0, ca.sf)
+            nb = 1 << size
+            if bt == WRAP:
+                ln = rng.choice((1, 3, 7, 15))
+                yield (page() + rng.randrange(4096 // nb) * nb, ln, size, bt)
+            else:
+                ln = rng.randint(0, min(255, 4096 // nb - 1) if bt == INCR else 15)
+                room = 4096 - (ln + 1) * nb
+                yield (page() + (rng.randint(0, room) // nb) * nb + rng.randrange(nb), ln, size, bt)
+        elif ca.kind == "up":
             ratio = 1 << (ca.st - ca.sf)
-            beats = ratio * rng.randint(1, 256 // ratio)
-            ln = beats - 1
             nb = 1 << ca.sf
+            if mode == 3 and ratio <= 8:
+                beats = rng.choice([b for b in (2, 4, 8, 16) if b % ratio == 0 and b // ratio >= 2] or [0])
+                if not beats:
+                    continue
+                win = beats * nb
+                base = (rng.randrange(4096 // win)) * win
+                yield (page() + base + rng.randrange(win >> ca.st) * (1 << ca.st), beats - 1, ca.sf, WRAP)
+                continue
+            beats = ratio * rng.randint(1, 256 // ratio)
             room = 4096 - beats * nb
             if room < 0:
                 continue
             off = (rng.randint(0, room) >> ca.st) << ca.st
-            yield ((rng.randrange(1 << (aw - 12)) << 12) + off, ln, ca.sf, INCR)
+            yield (page() + off, beats - 1, ca.sf, INCR)
         else:
             ratio = 1 << (ca.sf - ca.st)
             nb = 1 << ca.sf
+            if mode == 2:
+                size = rng.randint(ca.st, ca.sf)    # single transfer, every size from the narrow to the wide bus width
+                yield (page() + rng.randrange(4096), 0, size, rng.choice((INCR, INCR, FIXED)))
+                continue
+            if mode == 3:
+                cands = [b for b in (2, 4, 8, 16) if b * ratio <= 16]
+                if cands:
+                    beats = rng.choice(cands)
+                    win = beats * nb
+                    base = rng.randrange(4096 // win) * win
+                    yield (page() + base + rng.randrange(beats) * nb, beats - 1, ca.sf, WRAP)
+                    continue
             ln = rng.randint(0, min(256 // ratio, 4096 // nb) - 1)
             room = 4096 - (ln + 1) * nb
             off = (rng.randint(0, room) >> ca.sf) << ca.sf
-            yield ((rng.randrange(1 << (aw - 12)) << 12) + off + (rng.randrange(nb) if rng.random() < 0.3 else 0),
-                   ln, ca.sf, INCR)
+            yield (page() + off + (rng.randrange(nb) if rng.random() < 0.3 else 0), ln, ca.sf, INCR)
 
 
 def conv_requests(rng, aw, sf, st, quick):
@@ -546,13 +682,9 @@ class LanePathInst:
     A lane value packs (data | strb << dw) of one narrow word for the W channel, data only for R."""
     FMT = "up: valid, lane, first, last, ready | down: valid, first, last, ready, lane0.."
 
-    def __init__(self, name, conv, channel, dw_from, dw_to, lane_values=None, aw=32):
-        from litex.soc.interconnect.axi.axi_full import AXIInterface, AXIUpConverter, AXIDownConverter
+    def __init__(self, name, conv, channel, dw_from, dw_to, lane_values=None, aw=32, via="direct"):
         self.name = name
-        self.axi_from = AXIInterface(data_width=dw_from, address_width=aw, id_width=2)
-        self.axi_to = AXIInterface(data_width=dw_to, address_width=aw, id_width=2)
-        cls = AXIUpConverter if conv == "up" else AXIDownConverter
-        self.module = cls(self.axi_from, self.axi_to)
+        self.axi_from, self.axi_to, self.module = build_converter(conv, dw_from, dw_to, aw, None, via)
         self.netlist = Netlist(self.module)
         self.channel = channel
         self.ratio = max(dw_from, dw_to) // min(dw_from, dw_to)
@@ -715,20 +847,22 @@ class LaneScoreboard:
 
 
 class ConvE2E:
-    """Drives whole write and read bursts from the supported region through a real AXIUp/DownConverter with random
-    stalls and compares, byte by byte, what the master issued with what appears on the other side:
-    write: the ordered list of (byte address, value) with strobe set; read: the value the master receives for every
-    byte address against the value the slave returned for it; plus beat counts and `last` on the final beat.
-    Byte addresses of the beats follow the A3.4.1 oracle on both sides."""
+    """Drives whole write and read bursts from the sub-domains of `ConvArith.supported` through a real
+    AXIUp/DownConverter with random stalls and compares, byte by byte, what the master issued with what appears on
+    the other side: write: the ordered list of (byte address, value) with strobe set; read: the value the master
+    receives for every byte address against the value the slave returned for it; plus beat counts and `last` on the
+    final beat.  Byte addresses of the beats follow the A3.4.1 oracle on both sides.  Bursts run back to back on
+    the same netlist state (no reset in between) so that state left behind by one burst meets the next."""
 
-    def __init__(self, kind, dw_from, dw_to, aw=32):
-        self.p = LanePathInst("e2e", kind, "w", dw_from, dw_to, aw=aw)
-        self.kind, self.dw_from, self.dw_to, self.aw = kind, dw_from, dw_to, aw
-        self.name = "AXI%sConverter(%d->%d)/end-to-end" % ("Up" if kind == "up" else "Down", dw_from, dw_to)
+    def __init__(self, kind, dw_from, dw_to, aw=32, via="direct"):
+        self.p = LanePathInst("e2e", kind, "w", dw_from, dw_to, aw=aw, via=via)
+        self.kind, self.dw_from, self.dw_to, self.aw, self.via = kind, dw_from, dw_to, aw, via
+        self.name = conv_name(kind, dw_from, dw_to, None, via) + "/end-to-end"
         self.ca_sf = log2i(dw_from // 8)
         self.ca_st = log2i(dw_to // 8)
         self.n = self.p.netlist
         self.root = self.n.snapshot()
+        self.fresh = True
 
     def supported_request(self, rng):
         class _C:
@@ -736,12 +870,18 @@ class ConvE2E:
         c = _C()
         c.kind, c.sf, c.st, c.aw = self.kind, self.ca_sf, self.ca_st, self.aw
         while True:
-            for r in conv_supported_requests(rng, c, 1):
+            for r in conv_supported_requests(rng, c, 4):
                 a, ln, size, bt = r
-                if self.kind == "down":
-                    a = (a >> self.ca_sf) << self.ca_sf
-                if ln < 48:
+                if ln < 48 and rng.random() < 0.5:
                     return (a, ln, size, bt)
+
+    def legal_strb(self, req, k, strb):
+        """Strobes a master may raise on beat k: only the byte lanes of that transfer."""
+        a, ln, size, bt = req
+        m = 0
+        for b in beat_bytes(a, ln, size, bt, k):
+            m |= 1 << (b % (self.dw_from // 8))
+        return strb & m
 
     @staticmethod
     def bytes_of_beats(req, beats, dw, with_strb):
@@ -760,7 +900,8 @@ class ConvE2E:
         import random
         rng = random.Random(seed)
         n, f, t = self.n, self.p.axi_from, self.p.axi_to
-        n.restore(self.root)
+        if self.fresh:
+            n.restore(self.root)
         a, ln, size, bt = req
         aw_sent = False
         i = 0
@@ -774,7 +915,8 @@ class ConvE2E:
             n.set(f.w.valid, wv)
             if i < len(wbeats):
                 n.set(f.w.data, wbeats[i][0]); n.set(f.w.strb, wbeats[i][1]); n.set(f.w.last, int(i == len(wbeats) - 1))
-            n.set(t.aw.ready, int(rng.random() < 0.6)); n.set(t.w.ready, int(rng.random() < 0.6))
+            drain = aw_sent and i >= len(wbeats)
+            n.set(t.aw.ready, int(drain or rng.random() < 0.6)); n.set(t.w.ready, int(drain or rng.random() < 0.6))
             n.settle()
             if n.getu(t.aw.valid) and n.getu(t.aw.ready) and got_aw is None:
                 got_aw = (n.getu(t.aw.addr), n.getu(t.aw.len), n.getu(t.aw.size), n.getu(t.aw.burst))
@@ -807,7 +949,8 @@ class ConvE2E:
         import random
         rng = random.Random(seed)
         n, f, t = self.n, self.p.axi_from, self.p.axi_to
-        n.restore(self.root)
+        if self.fresh:
+            n.restore(self.root)
         a, ln, size, bt = req
         ar_sent = False
         got_ar = None
@@ -825,7 +968,8 @@ class ConvE2E:
             n.set(t.r.valid, rv)
             if rv:
                 n.set(t.r.data, sl_next); n.set(t.r.last, int(len(sl_beats) == got_ar[1]))
-            n.set(f.r.ready, int(rng.random() < 0.6))
+            drain = got_ar is not None and len(sl_beats) > got_ar[1]
+            n.set(f.r.ready, int(drain or rng.random() < 0.6))
             n.settle()
             if n.getu(t.ar.valid) and n.getu(t.ar.ready) and got_ar is None:
                 got_ar = (n.getu(t.ar.addr), n.getu(t.ar.len), n.getu(t.ar.size), n.getu(t.ar.burst))
@@ -855,35 +999,77 @@ class ConvE2E:
                     req, got_ar, b, v, "0x%02x" % want[b] if b in want else "nothing for it")
         return None
 
+    def run_history(self, history):
+        """Replay a list of bursts back to back from reset; returns the first monitor message or None."""
+        self.n.restore(self.root)
+        self.fresh = False
+        try:
+            for h in history:
+                if h["e2e"] == "write":
+                    m = self.run_write(tuple(h["request"]), [tuple(x) for x in h["wbeats"]], h["stall_seed"])
+                else:
+                    m = self.run_read(tuple(h["request"]), h["stall_seed"])
+                if m:
+                    return m
+        finally:
+            self.fresh = True
+        return None
+
     def run(self, cov, seed, tier):
         import random
         rng = random.Random(seed * 977 + self.dw_from + 3 * self.dw_to)
-        nb = 12 if tier == "quick" else 120
+        nb = 16 if tier == "quick" else 160
         dis = []
         beats = 0
+        history = []
+        self.n.restore(self.root)
+        self.fresh = False
         for k in range(nb):
+            if k % 8 == 0:
+                self.n.restore(self.root)
+                history = []
             req = self.supported_request(rng)
-            wbeats = [(rng.getrandbits(self.dw_from), rng.choice((rng.getrandbits(self.dw_from // 8),
-                                                                  (1 << (self.dw_from // 8)) - 1)))
-                      for _ in range(req[1] + 1)]
-            s1 = rng.getrandbits(30)
-            m = self.run_write(req, wbeats, s1)
-            if m:
-                dis.append({"instance": self.name, "kind": "monitor:" + m, "e2e": "write", "request": list(req),
-                            "wbeats": [list(b) for b in wbeats], "stall_seed": s1, "monitor": m})
-                break
-            s2 = rng.getrandbits(30)
-            m = self.run_read(req, s2)
-            if m:
-                dis.append({"instance": self.name, "kind": "monitor:" + m, "e2e": "read", "request": list(req),
-                            "stall_seed": s2, "monitor": m})
+            cov.count("end-to-end domain " + str(ConvArith.supported(self, req)))
+            full = (1 << (self.dw_from // 8)) - 1
+            wbeats = [(rng.getrandbits(self.dw_from),
+                       self.legal_strb(req, b, rng.choice((rng.getrandbits(self.dw_from // 8), full))))
+                      for b in range(req[1] + 1)]
+            for what in ("write", "read"):
+                sd = rng.getrandbits(30)
+                h = {"e2e": what, "request": list(req), "stall_seed": sd}
+                if what == "write":
+                    h["wbeats"] = [list(b) for b in wbeats]
+                    m = self.run_write(req, wbeats, sd)
+                else:
+                    m = self.run_read(req, sd)
+                history.append(h)
+                if m:
+                    # prefer the burst alone from reset as the witness; else the whole back-to-back sequence
+                    alone = self.run_history([h])
+                    d = dict(h)
+                    d.update({"instance": self.name, "kind": "monitor:" + (alone or m), "monitor": alone or m})
+                    if not alone:
+                        d["history"] = history
+                    dis.append(d)
+                    break
+            if dis:
                 break
             beats += 2 * (req[1] + 1)
+        self.fresh = True
         cov.add_cases(self.name, 2 * nb, 2 * nb, exhaustive=False)
         cov.instances[-1]["mode"] = "E (monitor only)"
         cov.count("end-to-end bursts (write+read)", 2 * nb)
         cov.count("end-to-end beats", beats)
         return dis
+
+    # ConvArith.supported reads these
+    @property
+    def sf(self):
+        return self.ca_sf
+
+    @property
+    def st(self):
+        return self.ca_st
 
 
 # ---------------------------------------------------------------------------------------------------------
@@ -910,12 +1096,37 @@ def _worker(idx):
     job = _JOBS[idx]
     cov = Coverage()
     lean = LeanDriver(prop)
+    budget = 400 if tier == "quick" else 3000          # per-job wall budget: a hang ends as a reported disagreement
+    try:
+        return _run_job(idx, job, cov, lean, seed, tier, budget)
+    except Exception as e:                              # building/driving a changed implementation may blow up
+        import traceback
+        name = getattr(job, "label", None) or "job %d (mode %s)" % (idx, job.mode)
+        return idx, cov.__dict__, [{"instance": name, "kind": "exception", "error": repr(e),
+                                    "traceback": traceback.format_exc()[-1500:]}]
+    finally:
+        lean.quit()
+
+
+class JobTimeout(Exception):
+    pass
+
+
+def _run_job(idx, job, cov, lean, seed, tier, budget):
+    import random, signal
+    from explore import coexplore, cosim
+
+    def on_alarm(*a):
+        raise JobTimeout("job exceeded its %d s budget" % budget)
+    signal.signal(signal.SIGALRM, on_alarm)
+    signal.alarm(budget)
     try:
         inst = job.make()
+        job.label = getattr(inst, "name", None)
         if job.mode == "A":
-            dis = coexplore(inst, lean, cov, **job.kw)
+            dis = coexplore(inst, lean, cov, deadline=time.time() + budget * 0.9, **job.kw)
         elif job.mode == "D":
-            dis = coexplore_dyn(inst, lean, cov, **job.kw)
+            dis = coexplore_dyn(inst, lean, cov, deadline=time.time() + budget * 0.9, **job.kw)
         elif job.mode == "C":
             return idx, cov.__dict__, conv_run(inst, lean, cov, seed, tier)
         elif job.mode == "E":
@@ -924,8 +1135,14 @@ def _worker(idx):
             rng = random.Random(seed * 7919 + idx)
             dis = cosim(inst, lean, cov, rng, **job.kw)
     finally:
-        lean.quit()
-    return idx, cov.__dict__, [(d.trace, d.cycle, d.impl_outs, d.model_outs, d.kind, d.inst_name, d.lean_open)
+        signal.alarm(0)
+    for ci in cov.instances:
+        if ci.get("mode") == "A" and not ci.get("exhaustive") and not dis:
+            # an exploration that does not finish (state blow-up / time-out) is not silently accepted
+            dis = list(dis) + [{"instance": ci["instance"], "kind": "exploration-incomplete",
+                                "states": ci.get("states"), "transitions": ci.get("transitions")}]
+    return idx, cov.__dict__, [d if isinstance(d, dict) else
+                               (d.trace, d.cycle, d.impl_outs, d.model_outs, d.kind, d.inst_name, d.lean_open)
                                for d in dis]
 
 
